@@ -2,8 +2,8 @@
 The tie between the code and the model, as theorems.
 
 `Gen/PySrc.lean` is produced on every run by the translator `harness/py2lean.py` from the live
-Python source of the repository (17 decision functions: the tokenizer's character classes, the
-printer's parenthesisation predicates, the classifiers of eight of the nine rules).  The theorems below say that
+Python source of the repository (20 decision functions: the tokenizer's character classes, the
+printer's parenthesisation predicates, the classifiers of all nine rules).  The theorems below say that
 the hand-written model — the one every property theorem is about — computes exactly what the
 translated source computes, for all characters / trees / positions / options.  They are re-checked
 against the regenerated file on every run: if one of those Python functions changes its behaviour,
@@ -14,58 +14,58 @@ Trusted here: the translator (a syntax-directed map on a small Python fragment) 
 library `Model/PyRt.lean` (what `.left/.right/.parent`, `isinstance`, `get_sibling` mean on a
 well-formed tree; `get_term_ex` / `factor_add_terms_ex` of util.py enter the translated classifiers of
 factor-out and variable-multiply as externals = the hand-written `getTermEx` / `factorAddTermsEx`).
-Not covered by the translator: the mutating halves of the rules (`apply_to`), the classifier of
-balanced move (it walks to the root), util.py, parser, evaluator, layout — those remain tied by the
-differential correspondence only.
+The `while` loop of balanced move becomes a fuel-indexed function whose fuel (depth + 1) is PROVED
+sufficient; `get_root`, `get_root_side`, `find_type` are library calls (PyRt).
+Not covered by the translator: the mutating halves of the rules (`apply_to`), util.py, parser,
+evaluator, layout — those remain tied by the differential correspondence only.
 -/
 import Mathy.Proofs.PySrcAgreeCAAll
 import Mathy.Proofs.PySrcAgreeDFAll
+import Mathy.Proofs.PySrcAgreeBM
 import Mathy.Props.C06
 namespace Mathy
 open Mathy.Py Mathy.Gen.Src Mathy.SrcAgree
 
-/-- the translated classifier of a rule, where the translator covers it -/
-def srcCanApply : Rule → Option (Ref → Bool)
-  | .associative => some AssociativeSwapRule_can_apply_to
-  | .commutative p => some (CommutativeSwapRule_can_apply_to p)
-  | .constants => some fun r => (ConstantsSimplifyRule_get_type r).isSome
-  | .distribute => some DistributiveMultiplyRule_can_apply_to
-  | .inverse => some fun r => (MultiplicativeInverseRule_get_type r).isSome
-  | .restate => some fun r => (RestateSubtractionRule_get_type r).isSome
-  | .factorOut c => some (DistributiveFactorOutRule_can_apply_to c)
-  | .variableMultiply => some VariableMultiplyRule_can_apply_to
-  | .balancedMove => none
+/-- the Python classifier of a rule (all nine rules, all options), as translated from the source -/
+def srcCanApply : Rule → Ref → Bool
+  | .associative => AssociativeSwapRule_can_apply_to
+  | .commutative p => CommutativeSwapRule_can_apply_to p
+  | .constants => fun r => (ConstantsSimplifyRule_get_type r).isSome
+  | .distribute => DistributiveMultiplyRule_can_apply_to
+  | .inverse => fun r => (MultiplicativeInverseRule_get_type r).isSome
+  | .restate => fun r => (RestateSubtractionRule_get_type r).isSome
+  | .factorOut c => DistributiveFactorOutRule_can_apply_to c
+  | .variableMultiply => VariableMultiplyRule_can_apply_to
+  | .balancedMove => BalancedMoveRule_can_apply_to
 
-/-- **Source tie, classifiers.** For the eight translated rules (all options; every rule but balanced move), at every position of
-every tree, the model's `canApply` is the Python `can_apply_to` as translated from the live
-source. -/
-theorem Src_canApply (r : Rule) (f : Ref → Bool) (h : srcCanApply r = some f) (k : Ctx) (n : Ex) :
-    f (some ⟨k, n⟩) = canApply r k n := by
+/-- **Source tie, classifiers.** For all nine rules (all options), at every position of every tree,
+the model's `canApply` is the Python `can_apply_to` as translated from the live source. -/
+theorem Src_canApply (r : Rule) (k : Ctx) (n : Ex) :
+    srcCanApply r (some ⟨k, n⟩) = canApply r k n := by
   cases r with
-  | associative => cases h; exact associative_can_agree k n
-  | commutative p => cases h; exact commutative_can_agree p k n
-  | constants => cases h; exact constants_can_agree k n
-  | distribute => cases h; exact distribute_can_agree k n
-  | inverse => cases h; exact inverse_can_agree k n
+  | associative => exact associative_can_agree k n
+  | commutative p => exact commutative_can_agree p k n
+  | constants => exact constants_can_agree k n
+  | distribute => exact distribute_can_agree k n
+  | inverse => exact inverse_can_agree k n
   | restate =>
-    cases h
     show (RestateSubtractionRule_get_type (some ⟨k, n⟩)).isSome = rsCan k n
     rw [restate_type_agree]
     simp [rsCan, rsType]
-  | factorOut c => cases h; exact df_can_agree c k n
-  | variableMultiply => cases h; exact vm_can_agree k n
-  | balancedMove => cases h
+  | factorOut c => exact df_can_agree c k n
+  | variableMultiply => exact vm_can_agree k n
+  | balancedMove => exact bm_can_agree k n
 
 /-- **Source tie, node search (C06).** `find_nodes` of the model lists exactly the in-order
 positions at which the translated Python classifier answers `True`. -/
-theorem Src_findNodes (r : Rule) (f : Ref → Bool) (h : srcCanApply r = some f) (t : Ex) (i : Nat) :
-    i ∈ findNodes r t ↔ ∃ k n, focusAt t i = some (k, n) ∧ f (some ⟨k, n⟩) = true := by
+theorem Src_findNodes (r : Rule) (t : Ex) (i : Nat) :
+    i ∈ findNodes r t ↔ ∃ k n, focusAt t i = some (k, n) ∧ srcCanApply r (some ⟨k, n⟩) = true := by
   rw [C06_findNodes_exact]
   constructor
   · rintro ⟨k, n, hf, hc⟩
-    exact ⟨k, n, hf, by rw [Src_canApply r f h]; exact hc⟩
+    exact ⟨k, n, hf, by rw [Src_canApply]; exact hc⟩
   · rintro ⟨k, n, hf, hc⟩
-    exact ⟨k, n, hf, by rw [← Src_canApply r f h]; exact hc⟩
+    exact ⟨k, n, hf, by rw [← Src_canApply]; exact hc⟩
 
 /-- **Source tie, arrangements (C08).** The arrangement names the Python classifiers return are
 the model's arrangements. -/
@@ -74,8 +74,10 @@ theorem Src_arrangements (k : Ctx) (n : Ex) :
     RestateSubtractionRule_get_type (some ⟨k, n⟩) = (rsType k n).map RSType.pyName ∧
     MultiplicativeInverseRule_get_type (some ⟨k, n⟩) = miPyType n ∧
     (DistributiveFactorOutRule_get_type (some ⟨k, n⟩)).map (·.1) = (dfType n).map DFType.pyName ∧
-    (VariableMultiplyRule_get_type (some ⟨k, n⟩)).map (·.1) = (vmType n).map VMType.pyName :=
-  ⟨constants_type_agree k n, restate_type_agree k n, inverse_type_agree k n, df_type_agree k n, vm_type_agree k n⟩
+    (VariableMultiplyRule_get_type (some ⟨k, n⟩)).map (·.1) = (vmType n).map VMType.pyName ∧
+    BalancedMoveRule_get_type (some ⟨k, n⟩) = (bmType k n).map BMType.pyName :=
+  ⟨constants_type_agree k n, restate_type_agree k n, inverse_type_agree k n, df_type_agree k n, vm_type_agree k n,
+    bm_type_agree k n⟩
 
 /-! non-vacuity: the translated classifier accepts `2 + (3 + x)` at the root (chained right) -/
 example : (ConstantsSimplifyRule_get_type
